@@ -166,6 +166,9 @@ fn expected_of(n: &Node, path: &mut Vec<String>, tree: &DElem, nil: bool, out: &
     let own_nil = n.attrs.iter().any(|(k, v)| k.ends_with(":nil") && (v == "true" || v == "1"));
     let under = nil || own_nil;
     for (k, v) in &n.attrs {
+        if v.contains(crate::dom::ENT_OPEN) {
+            continue; // what a reference to a DTD-declared entity stands for is not known to the harness
+        }
         out.push(Expected { value: v.clone(), what: format!("attribute {} of {}", k, here), struct_typed_text: false, under_nil: under });
     }
     let struct_typed = find(tree, path).map_or(false, |e| !e.attrs.is_empty() || !e.children.is_empty()) || path.len() == 1;
@@ -177,7 +180,7 @@ fn expected_of(n: &Node, path: &mut Vec<String>, tree: &DElem, nil: bool, out: &
             _ => {}
         }
     }
-    if !text.trim().is_empty() {
+    if !text.trim().is_empty() && !text.contains(crate::dom::ENT_OPEN) {
         out.push(Expected { value: text.trim().to_string(), what: format!("text of {}", here), struct_typed_text: struct_typed, under_nil: under });
     }
     path.pop();
@@ -445,9 +448,10 @@ fn vnode_tokens(n: &Node, out: &mut String) {
 /// the `E` line: program text, every document (sources, then extras) with its values, and what the compiled
 /// program made of it per variant
 pub fn e_line(id: &str, prop: &str, p: &Program, r: &ProgResult, sxr: bool) -> String {
-    let all: Vec<&Doc> = p.docs.iter().chain(p.extra_docs.iter()).collect();
+    // documents that refer to entities of their own DTD are outside the deserializer model (the values are unknown)
+    let all: Vec<(usize, &Doc)> = p.docs.iter().chain(p.extra_docs.iter()).enumerate().filter(|(_, d)| !crate::dom::has_entity_markers(&d.root)).collect();
     let mut s = format!("E {} {} {} PROG {} K{}", id, prop, sxr as u8, enc(&p.text), all.len());
-    for (j, d) in all.iter().enumerate() {
+    for (j, d) in all.iter().map(|(j, d)| (*j, *d)) {
         s.push(' ');
         vnode_tokens(&d.root, &mut s);
         let variants: Vec<&Vec<DocResult>> = if sxr { vec![&r.docs] } else { vec![&r.docs, &r.docs_deny] };
